@@ -263,4 +263,30 @@ theorem needs_tick_is_min (net : Net) :
     ((net.peers = [] ∧ net.needsTick = .inactive) ∨ ∃ e ∈ net.peers, net.needsTick = e.2.conn.needsTick) :=
   ⟨needsTick_le net, needsTick_attained net⟩
 
+/-! ## the id allocator -/
+
+/-- `Peers::new_peer` returns (does not spin forever) whenever fewer than 2^32 peers are live -/
+theorem new_peer_terminates (net : Net) (addr : Nat) (tok : Bool) (hn : net.nextPeerId < idMod)
+    (hlen : net.peers.length < idMod) : ∃ net1 pid, newPeer net addr tok = .ok (net1, pid) :=
+  newPeer_ok_of_room net addr tok hn hlen
+
+/-! ## non-vacuity, and the history of D22 -/
+
+example : histOk (Net.new true) exampleHistory = true := by decide
+example : finalPeers (run (Net.new true) exampleHistory) = some ([2], [3]) := by decide
+example : PInv (Net.new true).peers := ⟨by simp [Net.new, pids], by simp [Net.new, addrs]⟩
+
+/-- **D22 (repaired), witness in the model of the old code**: with `Net::feed` as it was, the
+history "connect request, the client's retransmission, accept" answers the retransmission (a
+datagram is sent although the application has not accepted the peer) and `Net::accept` then
+panics.  With the repaired `feed` the same history runs (`exampleHistory` starts with it). -/
+theorem d22_legacy_witness :
+    ∃ net1 net2 o1 o2,
+      legacyStep { now := 0 } (Net.new true) (.feed 1 (connectReq true)) = .ok (net1, .unit, o1) ∧
+      legacyStep { now := 0, draws := [0x01020304] } net1 (.feed 1 (connectReq true)) = .ok (net2, .unit, o2) ∧
+      o2.sent ≠ [] ∧
+      legacyStep { now := 0, draws := [0x01020304] } net2 (.accept 0) =
+        .error (.panic "accept: assert is_unconnected") := by
+  refine ⟨_, _, _, _, rfl, rfl, by decide, by decide⟩
+
 end Tw.Props.C20
